@@ -20,6 +20,7 @@ type SpecEnv struct {
 	useVars  bool
 	pos      token.Pos
 	depth    int
+	loopEntry *State // state at the entry of the loop whose invariant is being evaluated (entry(e))
 	resIndex int // which result of a pure call is meant (res1(x.M()))
 	outermost bool // resolve local names to the outermost declaration (postconditions) instead of the innermost
 }
@@ -563,7 +564,10 @@ func (fc *FnCtx) specCall(env *SpecEnv, e *SCall) Val {
 			if _, ok := x.Ty.Underlying().(*types.Slice); ok {
 				t = "(s_base " + x.T + ")"
 			}
-			top := fc.root().entry.top
+			top := "top0"
+			if en := fc.root().entry; en != nil {
+				top = en.top
+			}
 			if env.old != nil {
 				top = env.old.top
 			}
@@ -587,6 +591,28 @@ func (fc *FnCtx) specCall(env *SpecEnv, e *SCall) Val {
 			smt.declare(inv, fmt.Sprintf("(declare-fun %s (Int) %s)", inv, smt.sortOf(t)))
 			smt.axiom(fmt.Sprintf("(forall ((a %s)) (! (= (%s (%s a)) a) :pattern ((%s a))))", smt.sortOf(t), inv, mvName, mvName))
 			return Val{"(" + inv + " " + f.T + ")", t}
+		case "entry":
+			if env.loopEntry == nil {
+				sfail("entry(e) is only meaningful in loop invariants")
+			}
+			n := *env
+			n.st = env.loopEntry
+			n.inOld = false
+			return fc.specEval(&n, e.Args[0])
+		case "newSince":
+			// the storage x refers to was allocated after the entry of the loop whose invariant this is
+			if env.loopEntry == nil {
+				sfail("newSince(x) is only meaningful in loop invariants")
+			}
+			x := args(0)
+			t := x.T
+			if _, ok := x.Ty.Underlying().(*types.Slice); ok {
+				t = "(s_base " + x.T + ")"
+			}
+			return Val{"(> " + t + " " + env.loopEntry.top + ")", boolT}
+		case "sametype":
+			a, b := args(0), args(1)
+			return Val{eq("(dyntype "+a.T+")", "(dyntype "+b.T+")"), boolT}
 		case "allocated":
 			// the value refers to storage that exists in the current state (not to a later allocation)
 			x := args(0)
